@@ -659,6 +659,32 @@ def helper_inputs():
         yield ("mv", (0, a), (3, b))
 
 
+FRESH_MODES = ("fresh-input", "fresh-arg", "fresh-both")
+
+
+def has_wrapper(s):
+    if s[0] == "mv":
+        return any(has_wrapper(c) for _, c in s[1:])
+    return any(n[0] == WRAP for n in walk(s))
+
+
+def unshared(v):
+    """An equal string that is a new, non-interned object (what a scope name is after a pickle
+    round trip, or when it is read from a file / built at run time)."""
+    w = "".join(list(v))
+    assert w == v and (w is not v or len(v) < 2)
+    return w
+
+
+def with_strings(s, f):
+    """The spec with every string payload passed through *f* (sys.intern or unshared)."""
+    if not isinstance(s, tuple):
+        return s
+    if s and s[0] == "str":
+        return ("str", f(s[1]))
+    return tuple(with_strings(c, f) for c in s)
+
+
 def build_h(s):
     if s[0] == "mv":
         from pymbolic.geometric_algebra import MultiVector, get_euclidean_space
@@ -712,7 +738,10 @@ def conform(helper, s, got, prefix, scope, where, exact_prefix):
         if gs == s or (gs[0] == WRAP and gs[1] == s[1]):
             return []                       # unwrapped: as it was, or re-labelled around the child
         if gs[0] == WRAP and gs[1] == s:
-            return [(kind, f"rewrapped:scope-arg={scope}:inner-scope={s[3][1]}",
+            # the recorded API behaviour is re-wrapping for a DIFFERENT non-default scope only
+            needless = scope is None or scope == "pymbolic_eval" or scope == s[3][1]
+            return [(kind, ("rewrapped-needlessly" if needless else "rewrapped")
+                     + f":scope-arg={scope}:inner-scope={s[3][1]}",
                      f"{show(s)} became {show(gs)}")]
         return [(kind, "changed", f"{show(s)} became {show(gs)}")]
     if gs[0] != WRAP:
@@ -729,9 +758,20 @@ def conform(helper, s, got, prefix, scope, where, exact_prefix):
 
 
 def check_helper(item, res):
+    import pickle
+    import sys
+
     import pymbolic.primitives as p
-    _, helper, s, prefix, scope = item
-    obj = build_h(s)
+    _, helper, s, prefix, scope = item[:5]
+    mode = item[5] if len(item) > 5 else "interned"
+    # items travel through pickle / JSON: make the identity of every scope string explicit
+    obj = build_h(with_strings(s, sys.intern))
+    if scope is not None:
+        scope = sys.intern(scope)
+    if mode in ("fresh-input", "fresh-both"):
+        obj = pickle.loads(pickle.dumps(build_h(with_strings(s, unshared))))
+    if mode in ("fresh-arg", "fresh-both") and scope is not None:
+        scope = unshared(scope)
     res.evals += 1
     if helper == "wrap_in_cse":
         o = refsem.outcome(p.wrap_in_cse, obj, prefix)
@@ -744,7 +784,8 @@ def check_helper(item, res):
         devs = conform(helper, s, o[1], prefix, scope, where, True)
     seen = set()
     for entry, what, detail in devs:
-        sig = f"helper|{helper}|{where}|{entry}|{what}"
+        sig = (f"helper|{helper}|{where}" + ("" if mode == "interned" else f"/{mode}")
+               + f"|{entry}|{what}")
         if sig in seen:
             continue
         seen.add(sig)
@@ -792,7 +833,9 @@ SCENARIOS = {
 # instance k gets ENVS_B[k % 4]; the first one makes the shared x + y evaluate to 0 (a falsy
 # cached value must still be a cache hit)
 ENVS_B = ((3, -3), (2, 3), (3, 5), (Fraction(1, 2), Fraction(3, 2)))
-KINDS_B = ("plain", "cached")
+# plain / memoizing stock evaluators; "legacy": a user subclass of EvaluationMapper whose __init__
+# only stores the context; "mixin": a minimal evaluator of our own on CSECachingMapperMixin
+KINDS_B = ("plain", "cached", "legacy", "mixin")
 
 
 def scenario_exprs(name):
@@ -813,7 +856,15 @@ def instrumented(kind):
     """Subclass of the stock evaluator logging every handler invocation."""
     if kind not in _INSTR:
         from pymbolic.mapper.evaluator import CachedEvaluationMapper, EvaluationMapper
-        cls = EvaluationMapper if kind == "plain" else CachedEvaluationMapper
+        if kind == "legacy":
+            class LegacyEvaluator(EvaluationMapper):
+                def __init__(self, context):            # does not chain up
+                    self.context = context
+            cls = LegacyEvaluator
+        elif kind == "mixin":
+            cls = mini_evaluator_cls()
+        else:
+            cls = EvaluationMapper if kind == "plain" else CachedEvaluationMapper
         ns = {}
         for name in dir(cls):
             if not name.startswith("map_") or name == "map_foreign":
@@ -828,6 +879,46 @@ def instrumented(kind):
             ns[name] = w
         _INSTR[kind] = type("I_" + cls.__name__, (cls,), ns)
     return _INSTR[kind]
+
+
+def mini_evaluator_cls():
+    """The smallest evaluator for the fragment that relies on CSECachingMapperMixin alone."""
+    from pymbolic.mapper import CSECachingMapperMixin, RecursiveMapper
+
+    class MiniEvaluator(RecursiveMapper, CSECachingMapperMixin):
+        def __init__(self, context):
+            self.context = context
+
+        def map_constant(self, expr):
+            return expr
+
+        def map_variable(self, expr):
+            return self.context[expr.name]
+
+        def map_sum(self, expr):
+            acc = 0
+            for c in expr.children:
+                acc = acc + self.rec(c)
+            return acc
+
+        def map_product(self, expr):
+            acc = 1
+            for c in expr.children:
+                acc = acc * self.rec(c)
+            return acc
+
+        def map_quotient(self, expr):
+            return self.rec(expr.numerator) / self.rec(expr.denominator)
+
+        def map_power(self, expr):
+            return self.rec(expr.base) ** self.rec(expr.exponent)
+
+        def map_call(self, expr):
+            return self.rec(expr.function)(*[self.rec(c) for c in expr.parameters])
+
+        def map_common_subexpression_uncached(self, expr):
+            return self.rec(expr.child)
+    return MiniEvaluator
 
 
 def canon_b(hist):
@@ -937,9 +1028,14 @@ class C12(Check):
         "value by the reference evaluator on 5 environments, sharing by ONE rec-intercepting "
         "evaluator with call-counting functions, no wrapper around a wrapper. Helpers: both "
         "helpers x every leaf kind, composite kind, wrapped node, object arrays, multivectors x "
-        "prefix x scope. Engine B: BFS over evaluator histories (6 scenarios x every first "
-        "operation; menu = expression i on the reused / a fresh plain / a fresh memoizing "
-        "instance; depth 3 quick, 4 thorough), every transition replayed from scratch and judged "
+        "prefix x scope, and every wrapper-containing input again with scope strings that are "
+        "equal to but not the same object as the cse_scope constants (wrapper pickled and "
+        "unpickled / scope argument built at run time / both). Engine B: BFS over evaluator "
+        "histories (6 scenarios x every first "
+        "operation; menu = expression i on the reused instance or on a fresh instance of one of "
+        "4 evaluator kinds: stock plain, stock memoizing, a user subclass of EvaluationMapper "
+        "whose __init__ only stores the context, a minimal evaluator built on "
+        "CSECachingMapperMixin alone; depth 3 quick, 4 thorough), every transition replayed from scratch and judged "
         "against refsem and a once-per-wrapper reference model. Non-trivial: a list with at "
         "least one repeated operation or pre-existing wrapper, any helper case, any history "
         "state; distinct = distinct (family, input).")
@@ -959,7 +1055,7 @@ class C12(Check):
         "such transition",
         "the evaluator's context is not mutated between evaluations on one instance",
     ]
-    chunk = 48
+    chunk = 6
     item_timeout = 600
 
     def families(self, tier):
@@ -989,6 +1085,13 @@ class C12(Check):
                     yield ("H", "wrap_in_cse", s, prefix, None)
                     for scope in SCOPES:
                         yield ("H", "make_common_subexpression", s, prefix, scope)
+            for s in helper_inputs():
+                if not has_wrapper(s):
+                    continue
+                for prefix in PREFIXES:
+                    for scope in SCOPES[1:]:
+                        for mode in FRESH_MODES:
+                            yield ("H", "make_common_subexpression", s, prefix, scope, mode)
 
         def histories():
             for name, (_, specs) in SCENARIOS.items():
